@@ -475,6 +475,20 @@ pub fn bulk_pke<B: Backend>(rec: &mut Recorder, st: &mut Stats, cfg: &Cfg) {
         };
         st.wraps += 1;
         st.pke_seals += 1;
+        // now and then the long-lived recipient key first refuses a damaged blob (an ephemeral public key that is no curve point, a
+        // flipped tag): the round trips that follow are judged like all others
+        if i % 64 == 7 {
+            let _ = catch_unwind(AssertUnwindSafe(|| {
+                let k: LocalKey<B> = key_from_bytes(&kb).ok()?;
+                let text = k.seal(&pk).ok()?.to_string();
+                let hdr = hdr_seal::<B>();
+                let mut blob = body_of(&text, &hdr)?;
+                let at = if i % 128 == 7 { blob.len() - 1 } else { blob.len() / 2 };
+                blob[at] ^= 0x55;
+                let bad = format!("{hdr}{}", crate::b64::enc(&blob));
+                SealedKey::<B::V>::from_str(&bad).ok()?.unseal(&sk).ok()
+            }));
+        }
         if got != kb && bad < 20 {
             bad += 1;
             let (l, r) = (rec.intern(&got), rec.intern(&kb));
